@@ -68,6 +68,8 @@ pub uninterp spec fn fadd(x: f64, y: f64) -> f64;
 pub uninterp spec fn fsub(x: f64, y: f64) -> f64;
 pub uninterp spec fn fneg(x: f64) -> f64;
 pub uninterp spec fn fzero() -> f64;
+// point-wise complex product of two transform-domain blocks (its value is the subject of C07, not decided here)
+pub uninterp spec fn f_mul(a: Seq<f64>, b: Seq<f64>) -> Seq<f64>;
 pub uninterp spec fn f_from_i64(x: i64) -> f64;
 pub open spec fn is_fadd(r: Seq<f64>, a: Seq<f64>, b: Seq<f64>) -> bool { r.len() == a.len() && forall|k: int| 0 <= k < a.len() ==> #[trigger] r[k] == fadd(a[k], b[k]) }
 pub open spec fn is_fsub(r: Seq<f64>, a: Seq<f64>, b: Seq<f64>) -> bool { r.len() == a.len() && forall|k: int| 0 <= k < a.len() ==> #[trigger] r[k] == fsub(a[k], b[k]) }
@@ -85,6 +87,8 @@ pub trait ReimArith {
     fn reim_negate_assign(res: &mut [f64]) ensures is_fneg(final(res)@, old(res)@);
     fn reim_copy(res: &mut [f64], a: &[f64]) requires old(res).len() == a.len() ensures final(res)@ == a@;
     fn reim_zero(res: &mut [f64]) ensures is_fzero(final(res)@, old(res).len() as int);
+    fn reim_mul(res: &mut [f64], a: &[f64], b: &[f64]) requires old(res).len() == a.len(), a.len() == b.len() ensures final(res)@ == f_mul(a@, b@), final(res).len() == old(res).len();
+    fn reim_mul_assign(res: &mut [f64], a: &[f64]) requires old(res).len() == a.len() ensures final(res)@ == f_mul(old(res)@, a@), final(res).len() == old(res).len();
 }
 // the transform itself is a function of the table and the input block only (its value is the subject of C07, not decided here)
 pub struct ReimFFTTable<T> { pub m: usize, pub _p: core::marker::PhantomData<T> }
